@@ -14,6 +14,7 @@ RULE = ('In-domain ground-lattice structures (<=2 wires quick, <=3 thorough; gen
         'configuration; (2) deviation from the ideal pattern decreases with sigma and vanishes at 1e12; (3) splitting any '
         'non-radial medium into 2..3 pieces with identical constants: identical pattern; (4) appending a medium beyond '
         'every reflection point: identical pattern for every (eps, sigma, height) of the appended medium. '
+        '(5) the media written as command-line options give the same Medium objects and pattern. '
         'State = (structure, media configuration); transition = one solve / pattern. Non-trivial: more than one medium, '
         'radials, or a loaded grounded pulse.')
 ASSUMPTIONS = ['reflection point of a pulse at height z towards (theta, phi) is z*tan(theta) along phi (specular reflection), measured as x (linear) or radius (circular)']
@@ -230,4 +231,28 @@ def evaluate(c):
                     'a third medium (%g, %g, height %g) beyond every reflection point (%s boundary at %.6g, reflections up to %.6g) changes the pattern of a two-media ground' % (eps, sig, h, b, xfar, hi))
                 canon.append('%s|v%d|far3|%s|%g|%g' % (und, vi, b, eps, h))
                 nontriv.append(True)
+    # (5) the same media written as command-line options describe the same ground: Medium attributes and pattern of the model
+    # built by main() equal those of the model built through the API (first source/load variant only)
+    from mcx import cli
+    src, loads = variants[0]
+    cs = dict(case, sources=[dict(pulse=src, v=[1.0, 0.0])], loads=[])
+    for name, env in (('1', dict(media=[[13., 5e-3, 0.]])), ('2lin', dict(media=[[13., 5e-3, 0., 7.5], [4., 1e-3, -2.]], boundary='linear')),
+                      ('3circ', dict(media=[[13., 5e-3, 0., 5.25], [80., 4., -1.5, 20.5], [3., 1e-4, -10.]], boundary='circular')),
+                      ('rad', dict(media=[[13., 5e-3, 0., 8.5], [4., 1e-3, -2.]], boundary='circular', radials=[16, 1e-3]))):
+        ma, ga = pattern(cs, env)
+        mb, diag = cli.build_main(cli.argv(dict(case, env=env), ['--excitation-pulse=%d' % (src + 1)]))
+        ev += 2
+        canon.append('%s|cli|%s' % (und, name))
+        nontriv.append(True)
+        if mb is None:
+            viol.append(('CLI-MEDIA-REJECTED', 'media %s as options: %s' % (name, diag[:120])))
+            continue
+        ta = [(x.permittivity, x.conductivity, x.height, x.coord, x.nradials, x.radius, x.boundary) for x in ma.media]
+        tb = [(x.permittivity, x.conductivity, x.height, x.coord, x.nradials, x.radius, x.boundary) for x in mb.media]
+        if ta != tb:
+            viol.append(('CLI-MEDIA', 'media %s: options give %s, the values written are %s' % (name, tb, ta)))
+            continue
+        mb.compute()
+        _, _, gb = obs.far(mb, ZEN, AZI)
+        chk('CLI-MEDIA-PATTERN', float(np.abs(np.array(gb) - ga)[ga > -200].max()), 1e-9, 'pattern over media %s given as options differs from the API model' % name)
     return dict(viol=viol[:8], canon=canon, nontriv=nontriv, trans=ev, traces=len(canon), evals=ev, dev=worst, outcome='gnd=%d' % len(gnd), note=wn)
